@@ -49,6 +49,7 @@ SCRIPTS = {
     'u2_group_two_bunches': [('new_update', 'u1', 't2', 2, 1), ('add_groups', 'u1', 2, [G(1, parent_abs=1)]),
                              ('add_jobs', 'u1', 2, [J(1, abs_parents=[1], group=1)]),
                              ('add_jobs', 'u1', 2, [J(2, parents=[1], group=1, always_run=True)]), ('commit', 'u1', 2)],
+    'u3_independent_job': [('new_update', 'u1', 't3', 1, 0), ('add_jobs', 'u1', 3, [J(1, abs_group=0)]), ('commit', 'u1', 3)],
     'u2_empty_groups_only': [('new_update', 'u1', 't2', 0, 1), ('add_groups', 'u1', 2, [G(1, parent_abs=0)]), ('commit', 'u1', 2)],
 }
 
@@ -408,8 +409,22 @@ class Family(dbmc.Harness):
                     out.append(('complete', j, a['attempt_id'], inst, s, 10, 20))
         if self.opts.get('stale_attempt', True) and v.jobs and st['i1'] == 'active':
             j = v.jobs[0]['job_id']
+            # the driver POSTs the job to the worker BEFORE it calls schedule_job in the database, so a very short job's
+            # completion report can be handled first (attempt unknown to the DB), and the driver's own call arrives late
             if not any(a['attempt_id'] == 'stale1' for a in atts):
                 out.append(('complete', j, 'stale1', 'i1', 'Success', 10, 20))
+            else:
+                out.append(('schedule', j, 'stale1', 'i1'))
+        if self.opts.get('late_schedule', True):
+            # the scheduler picks a Ready job and an active instance, POSTs to the worker and only then calls schedule_job;
+            # a cancellation or the instance's deactivation can land in between, so the call may arrive for any Ready job
+            # of a committed update on an instance in any state (the guard inside schedule_job has to refuse)
+            existing = {a['attempt_id'] for a in atts}
+            for j in v.jobs:
+                if j['state'] == 'Ready' and j['update_id'] in v.committed and f"L{j['job_id']}" not in existing:
+                    for inst in ('i1', 'i2')[: 1 if self.tier == 'quick' else 2]:
+                        if st[inst] != 'active' or v.job_cancelled(j):
+                            out.append(('schedule', j['job_id'], f"L{j['job_id']}", inst))
         if not self.opts.get('no_cancel'):
             for g in v.groups:
                 out.append(('cancel', g['job_group_id']))
